@@ -31,7 +31,12 @@ RULE = ("cases: (a) layers.e2e — a generated tree of nested dataclasses (depth
         "new contents in between; every round must follow that round's contents. (e) Optional members (oracle only, "
         "outside the modelled fragment) — e2e scenarios over classes with members declared Optional[K] = None at depth 1 "
         "and 2, in 60% of them no command-line option inside any optional group; the member must be an instance iff some "
-        "layer mentions one of its leaves (leaves then follow the priority rule, definition defaults otherwise), else None. "
+        "layer mentions one of its leaves (leaves then follow the priority rule, definition defaults otherwise), else None; a "
+        "dedicated sub-stream builds the regression shape of 3f531df / f635f07 (a group mentioned only by one command-line "
+        "option for a field of a nested member, Optional or plain, required or default_factory). (f) layers.collapse "
+        "(modelled) — the same classes with NO file / set_defaults / default instance, command-line options for one deep "
+        "leaf, a random set of leaves or none (some repeating a default while that finding is open): the model's collapse "
+        "rule decides instance vs None for every Optional member. "
         "Non-trivial = an e2e case whose leaves "
         "use >= 2 different layers or has a nested leaf mentioned in a file, a history with >= 2 rounds, or a unit case "
         "with >= 2 sources; distinct by canonical JSON of the case.")
@@ -254,7 +259,10 @@ def gen_cls_opt(rng, depth, mk, under_opt=False, top=True):
     for j, n in enumerate(rng.sample(NEST_NAMES, n_nest)):
         opt = (top and j == 0 and rng.random() < 0.7) or rng.random() < 0.55
         sub = gen_cls_opt(rng, depth - 1, mk, under_opt or opt, top=False)
-        fields.append({"k": "nested", "name": n, "fac": None, "opt": opt, "cls": sub})
+        # a plain (non-Optional) nested member below an Optional one: required, or `field(default_factory=K)`
+        plain_ok = all((g["dflt"] is not None) if g["k"] == "leaf" else (g.get("opt") or g["fac"] is not None) for g in sub)
+        fac = {} if (not opt and under_opt and plain_ok and rng.random() < 0.6) else None
+        fields.append({"k": "nested", "name": n, "fac": fac, "opt": opt, "cls": sub})
     rng.shuffle(fields)
     return fields
 
@@ -295,14 +303,102 @@ def opt_case(rng, mk):
     if rng.random() < 0.6:
         for n in nodes:
             drop_cmd(n)
-    elif not _finding_open("C06-optional-cmd-lost"):
-        # the shape of that finding (a group mentioned ONLY by command-line options deeper than its own direct fields) is
-        # generated only while the finding is listed as open; otherwise those options are removed
+    elif _finding_open("C06-optional-cmd-repeats-default"):
+        # the shape of that open finding — a group nobody mentions except command-line options that REPEAT the definition
+        # default of the field they address — is produced on purpose only while the finding is listed as open
+        free = [n for n in nodes if not group_mentions(c, 0, n)]
+        if free and rng.random() < 0.3:
+            n = rng.choice(free)
+            below = [pth for pth, _f in leaf_paths(cls) if pth[:len(n)] == n]
+            for pth in rng.sample(below, rng.choice([1, 1, min(2, len(below))])):
+                set_path(c["cmd"], (dest,) + pth, defn_value(cls, pth))
+    else:
         for n in nodes:
             if _cmd_lost_shape(c, 0, n):
                 drop_cmd(n)
+    if rng.random() < 0.25:
+        # deeper-only shape (regression 3f531df): a group nobody mentions except ONE command-line option for a field of a
+        # member nested inside it, with a value different from that field's default
+        deep = [(n, pth, f) for n in nodes if not group_mentions(c, 0, n)
+                for pth, f in leaf_paths(cls) if pth[:len(n)] == n and len(pth) > len(n) + 1
+                ]   # through an Optional child (regression 3f531df) or a plain nested member (regression f635f07)
+        if deep:
+            n, pth, f = rng.choice(deep)
+            v = mk(f["ty"])
+            if f["ty"] == "bool":
+                v = not defn_value(cls, pth)
+            set_path(c["cmd"], (dest,) + pth, v)
     case["model"] = False     # Optional members are outside the modelled fragment
     return case
+
+
+def deeper_only_case(rng, mk):
+    """regression shape of 3f531df / f635f07, built on purpose: an Optional member `n` with a nested member `m` (Optional
+    or plain); NO layer mentions
+    anything below `n` except one command-line option (non-default value) for a field below `m`"""
+    while True:
+        cls = gen_cls_opt(rng, 2, mk)
+        nodes = list(opt_nodes(cls))
+        pairs = [(n, n + (f["name"],)) for n in nodes for f in class_at(cls, n) if f["k"] == "nested"]
+        if pairs:
+            break
+    n, m = rng.choice(pairs)
+    case = e2e_case(rng, mk, cls_list=[cls], no_rl=True)
+    c = case["case"]
+    reg = c["regs"][0]
+    def strip(tree, path):
+        cur = tree
+        for q in path[:-1]:
+            cur = cur.get(q) if isinstance(cur, dict) else None
+            if cur is None:
+                return
+        if isinstance(cur, dict):
+            cur.pop(path[-1], None)
+    for _name, _i, data, rootless in sources_of(c):
+        strip(data, n if rootless else (reg["dest"],) + n)
+    strip(c["cmd"], (reg["dest"],) + n)
+    if reg["inst"] is not None:
+        strip(reg["inst"], n)
+    pth, f = rng.choice([(pth, f) for pth, f in leaf_paths(cls) if pth[:len(m)] == m])
+    v = (not defn_value(cls, pth)) if f["ty"] == "bool" else mk(f["ty"])
+    set_path(c["cmd"], (reg["dest"],) + pth, v)
+    case["model"] = False
+    return case
+
+
+def collapse_case(rng, mk):
+    """modelled (op layers.collapse): a class with Optional members that NO file / set_defaults / default instance
+    mentions — only command-line options do, for a random set of leaves (one deep leaf, several, or none)"""
+    while True:
+        cls = gen_cls_opt(rng, rng.choice([1, 2, 2]), mk)
+        nodes = list(opt_nodes(cls))
+        if nodes:
+            break
+    api = rng.choice(["parse", "parser"])
+    dest = "config" if api == "parse" else rng.choice(DESTS)
+    under = lambda pth: any(pth[:len(n)] == n for n in nodes)
+    leaves = list(leaf_paths(cls))
+    cmd = {}
+    mode = rng.choice(["one-deep", "one-deep", "random", "random", "none"])
+    chosen = set()
+    if mode == "one-deep":
+        deep = [pth for pth, _f in leaves if under(pth)]
+        chosen = {rng.choice(deep)} if deep else set()
+    elif mode == "random":
+        chosen = {pth for pth, _f in leaves if rng.random() < 0.25}
+    repeat_ok = _finding_open("C06-optional-cmd-repeats-default")
+    for pth, f in leaves:
+        d = defn_value(cls, pth)
+        if d is None or pth in chosen:
+            if d is not None and under(pth) and repeat_ok and rng.random() < 0.15:
+                v = d                                   # repeats the default: the open finding's shape
+            else:
+                v = (not d) if (f["ty"] == "bool" and d is not None) else mk(f["ty"])
+            set_path(cmd, (dest,) + pth, v)
+    case = {"api": api, "nest": rng.choice(["WITHOUT_ROOT", "DEFAULT"]), "regs": [{"dest": dest, "cls": cls, "inst": None}],
+            "kw_before_rl": [], "kw_before": [], "kw_after": [], "ctor_files": [], "ctor_form": "list_str", "add_arg": None,
+            "cli_files": None, "cli_pos": "front", "cmd": cmd}
+    return {"op": "layers.collapse", "case": case}
 
 
 def e2e_case(rng, mk, cls_list=None, api=None, force=None, malformed=None, fmt=None, no_rl=False):
@@ -606,6 +702,11 @@ def gen(rng, tier):
     # (e) Optional members (oracle only)
     for _ in range(200 if tier == "quick" else 700):
         yield opt_case(rng, mk)
+    for _ in range(30 if tier == "quick" else 100):
+        yield deeper_only_case(rng, mk)
+    # (f) the collapse decision for Optional members that only the command line can mention (modelled)
+    for _ in range(200 if tier == "quick" else 600):
+        yield collapse_case(rng, mk)
     # (d) histories: the same file paths rewritten between parses (oracle only)
     for _ in range(60 if tier == "quick" else 400):
         yield history_case(rng, mk)
@@ -690,7 +791,7 @@ def impl(case):
         w = r["value"]
         return {"o": "ok", "slots": _walk_wrapper(c["cls"], w, lambda f: f._default),
                 "defaults": _walk_wrapper(c["cls"], w, lambda f: f.default)}
-    if op == "layers.e2e":
+    if op in ("layers.e2e", "layers.collapse"):
         return impl_e2e(c)
     if op == "layers.history":
         stem = f"{os.getpid()}_{next(_SEQ)}_h"
@@ -809,6 +910,21 @@ def model_case(case, obs):
         return {"dicts": [enc(d) for d in c["dicts"]]}
     if op == "layers.set_default":
         return {"cls": enc_cls(c["cls"]), "inst": None if c["inst"] is None else enc(c["inst"]), "values": [enc(v) for v in c["values"]]}
+    if op == "layers.collapse":
+        reg = c["regs"][0]
+        def ot(cls, pre):
+            out = []
+            for f in cls:
+                if f["k"] == "leaf":
+                    d = {"k": "leaf", "name": f["name"], "dflt": enc(defn_value(reg["cls"], pre + (f["name"],)))}
+                    v, ok = get_path(c["cmd"], (reg["dest"],) + pre + (f["name"],))
+                    if ok:
+                        d["arg"] = enc(v)
+                    out.append(d)
+                else:
+                    out.append({"k": "member", "name": f["name"], "opt": bool(f.get("opt")), "cls": ot(f["cls"], pre + (f["name"],))})
+            return out
+        return {"dest": reg["dest"], "cls": ot(reg["cls"], ())}
     return {
         "without_root": c["nest"] == "WITHOUT_ROOT",
         "kw_before": [enc(d) for d in c.get("kw_before_rl", [])] + [enc(d) for d in c["kw_before"]],
@@ -903,7 +1019,10 @@ def defn_value(cls, path):
             obj = build_inst(f["cls"], pyc, f["fac"])
             for q in path[n + 1:]:
                 obj = getattr(obj, q)
-            return obj
+                if obj is None:      # an Optional member below the factory's product: its leaves keep their class defaults
+                    break
+            else:
+                return obj
         cur = f["cls"]
     return next(f for f in cur if f["name"] == path[-1])["dflt"]
 
@@ -987,17 +1106,17 @@ def group_mentions(c, ri, node):
 
 
 def _cmd_lost_shape(c, ri, node):
-    """an Optional member mentioned ONLY by command-line options that do not change one of its own direct fields (they
-    address deeper members, or repeat a direct field's default): the shape of open finding C06-optional-cmd-lost"""
+    """an Optional member mentioned ONLY by command-line options each of which repeats the definition default of the
+    field it addresses (at any depth below the member): the shape of open finding C06-optional-cmd-repeats-default (the
+    TODO in parsing.py `_create_dataclass_instance`: a repeated default cannot be told from "no argument passed")"""
     ms = group_mentions(c, ri, node)
     if not ms or any(ls != {"cmd"} for ls in ms.values()):
         return False
     reg = c["regs"][ri]
     for path in ms:
-        if len(path) == len(node) + 1:
-            v, _ = get_path(c["cmd"], (reg["dest"],) + path)
-            if not same(v, defn_value(reg["cls"], path)):
-                return False
+        v, _ = get_path(c["cmd"], (reg["dest"],) + path)
+        if not same(v, defn_value(reg["cls"], path)):
+            return False
     return True
 
 
@@ -1143,7 +1262,7 @@ def oracle(case, obs):
 
 def _null_erases(case, obs, fail):
     c = case["case"]
-    if case["op"] != "layers.e2e":
+    if case["op"] not in ("layers.e2e", "layers.collapse"):
         return False
     nulls = {(f[3]) for f in facts(c) if f[0] == "null_leaf"}
     if not nulls:
@@ -1160,13 +1279,13 @@ def _null_erases(case, obs, fail):
 
 
 def _opt_cmd_lost(case, obs, fail):
-    if case["op"] != "layers.e2e" or fail.get("clause") != "optional-collapsed":
+    if case["op"] not in ("layers.e2e", "layers.collapse") or fail.get("clause") != "optional-collapsed":
         return False
     ri, *node = fail["node"]
     return _cmd_lost_shape(case["case"], ri, tuple(node))
 
 
-FINDINGS = {"C06-null-erases": _null_erases, "C06-optional-cmd-lost": _opt_cmd_lost}
+FINDINGS = {"C06-null-erases": _null_erases, "C06-optional-cmd-repeats-default": _opt_cmd_lost}
 
 
 def nontrivial(case, obs):
@@ -1193,7 +1312,7 @@ def tags(case, obs):
     if op == "layers.history":
         return [f"op:{op}", f"rounds:{len(c['rounds'])}"] + sorted({"round-out:" + r["o"] for r in obs["rounds"]})
     t = [f"op:{op}", "out:" + (obs["o"] if obs["o"] != "raise" else f"raise:{obs.get('exc')}")]
-    if op != "layers.e2e":
+    if op not in ("layers.e2e", "layers.collapse"):
         return t
     t += [f"api:{c['api']}", f"nest:{c['nest']}", f"regs:{len(c['regs'])}", f"ctor:{len(c['ctor_files'])}",
           "cli:" + ("absent" if c["cli_files"] is None else str(len(c["cli_files"]))), f"addarg:{c['add_arg']}"]
@@ -1234,7 +1353,7 @@ def shrink(case):
             if any(r[key] for r in rs):
                 yield {"op": case["op"], "model": False, "case": {"rounds": [dict(r, **{key: ({} if key == "cmd" else [])}) for r in rs]}}
         return
-    if case["op"] != "layers.e2e":
+    if case["op"] not in ("layers.e2e", "layers.collapse"):
         return
     c = case["case"]
     def mk(**kw):
@@ -1268,7 +1387,7 @@ def shrink(case):
 
 
 def neighbours(case, rng):
-    if case["op"] != "layers.e2e":
+    if case["op"] not in ("layers.e2e", "layers.collapse"):
         return
     yield from shrink(case)
 
@@ -1285,12 +1404,16 @@ MANIFEST = {
              "influence on it (c06_leafwise). Totality: well-formed sources and a value for every leaf make the pipeline "
              "return a result (c06_total, c06_total_of_defaults). Unknown keys: a key naming no field of its section at any "
              "depth makes set_default fail and the whole parse cannot return a result (c06_unknown_key_*, "
-             "c06_parse_unknown_key). dict_union is right-biased at leaves and recursive on dicts. The full statement with "
+             "c06_parse_unknown_key). Optional members: a command-line value different from its default anywhere below an "
+             "Optional member makes the member an instance and is found at its path in the result "
+             "(c06_member_instance_of_nondefault_arg, c06_cmd_value_reaches_result; false for the rule before 3f531df / "
+             "f635f07: c06_collapse_old_witness), while values that only repeat defaults are lost (open finding "
+             "C06-optional-cmd-repeats-default, c06_repeats_default_collapses). dict_union is right-biased at leaves and recursive on dicts. The full statement with "
              "'explicit null = not mentioned' is refuted by a witness (a later null erases earlier sources: open finding "
              "C06-null-erases) and proved under the named exclusion NoNullAt (a tuple config_path raising TypeError was found "
              "by this check and repaired in /repo, 82d0eed; its input stays in the corpus as a regression case). The model is "
-             "tied to the code by three correspondence ops (dict_union, set_default on a real wrapper, end-to-end through "
-             "parse()/ArgumentParser with real json/yaml files, 1-2 destinations), a history op (same paths rewritten between "
+             "tied to the code by four correspondence ops (dict_union, set_default on a real wrapper, end-to-end through "
+             "parse()/ArgumentParser with real json/yaml files, 1-2 destinations, the collapse decision for Optional members), a history op (same paths rewritten between "
              "parses, oracle only), and the property's own statement is evaluated on every real observation."),
     "note": ("Trusted: Lean kernel + propext/Classical.choice/Quot.sound; argparse, json, PyYAML, dataclasses (stdlib "
              "behaviour assumed); the harness. Modelled not verified: parsing.py:300-343,385-438,460-521, "
